@@ -62,9 +62,11 @@ class Check(PropCheck):
             else:
                 per = max(1, budget // (len(starts) * len(a1) * 8))
                 for i, x in enumerate(a1):
-                    a2 = rng.sample(actions(size_guess + 1, rng), 8)
+                    A2 = actions(size_guess + 1, rng)
+                    a2 = rng.sample(A2, min(8, len(A2)))
                     for j, y in enumerate(a2):
-                        a3 = rng.sample(actions(size_guess + 2, rng), per)
+                        A3 = actions(size_guess + 2, rng)
+                        a3 = rng.sample(A3, min(per, len(A3)))
                         for k, z in enumerate(a3):
                             ops = sops + ['dump'] + x + ['dump'] + y + ['dump'] + z + ['dump']
                             cases.append(Case('h_%d_%d_%d_%d' % (si, i, j, k), ops))
